@@ -247,6 +247,12 @@ def register(M):
             cell, path = v.cell, v.path
             v = ex.read_path(cell, path)
             pin = Adt('Pin<&mut ?>', {(None, 0): Ref(cell, path)})
+        if isinstance(v, Adt) and T.type_name_hint(v.ty)[0] == 'Either' and v.discr is not None:
+            # future::Either as a future: the active side is polled, same output
+            d_ = z3.simplify(M.discr(ex, v))
+            k_ = d_.as_long() if z3.is_bv_value(d_) else (0 if ex.branch(d_ == bv(0)) else 1)
+            inner = Ref(cell, path + (('f', k_, 0, '?'),))
+            return M.table['Future::poll'](ex, info, [Adt('Pin<&mut ?>', {(None, 0): inner}), a[1]], dty)
         if isinstance(v, Obj) and v.kind == 'then':
             if v.second is None:
                 r = ex.materialize(M.poll_cell(ex, v.first, a[1], 'Poll<?>'))
